@@ -89,6 +89,13 @@ pub fn run(rep: &mut Report) {
         }
         reqs.push(format!("lcov.parse 1 {}", hex(&bytes)));
         impls.push(got);
+        // byte-for-byte tie of the writer model (hash-map order of functions is not modelled:
+        // only sets with at most one function per file)
+        if rs.iter().all(|r| r.2.functions.len() <= 1) {
+            reqs.push(format!("lcov.print {}", show_results_ordered(&want)).trim_end().to_string());
+            impls.push(hex(&bytes));
+            rep.count("writer.byte_tie");
+        }
     }
     let model = run_model(&reqs, &rep.workdir, "c05");
     for i in 0..reqs.len() {
@@ -97,8 +104,9 @@ pub fn run(rep: &mut Report) {
             rep.fail(
                 "disagreement",
                 None,
-                "parse_lcov differs from Lcov.parse on a report written by output_lcov".into(),
-                json!({"op": "lcov.parse", "branch": true, "input_hex": reqs[i].split(' ').last().unwrap(), "impl": impls[i], "model": model[i]}),
+                "parse_lcov / output_lcov differ from Lcov.parse / Lcov.printLcov on a written report".into(),
+                json!({"op": if reqs[i].starts_with("lcov.print") { "lcov.print" } else { "lcov.parse" }, "branch": true, "request": reqs[i],
+                       "input_hex": reqs[i].split(' ').last().unwrap(), "impl": impls[i], "model": model[i]}),
             );
         }
     }
